@@ -8,6 +8,8 @@ import (
 	"sort"
 	"strings"
 
+	"golang.org/x/tools/go/cfg"
+
 	"pgoverif/checker/an"
 	"pgoverif/checker/core"
 	"pgoverif/checker/load"
@@ -447,40 +449,66 @@ func runResForward(c *core.Ctx) {
 				return true
 			})
 			if coll {
-				// the forwarding call must sit in a range loop over <field>.Keys() of the dirty (or whole, for Close) collection
-				ast.Inspect(f.Body(), func(n ast.Node) bool {
-					rs, ok := n.(*ast.RangeStmt)
+				// the forwarding call must sit in a loop that runs once per key of <field>.Keys() of the dirty (or whole, for
+				// Close) collection - a range or a counting loop over the call or over a local that holds its result - and
+				// every iteration must reach it
+				want := "dirtyElems"
+				if m == "Close" {
+					want = "" // any non-dirty collection: all realised / configured elements
+				}
+				isKeys := func(x ast.Expr) bool {
+					call, ok := an.Unparen(an.ResolveLocal(info, f.Body(), x)).(*ast.CallExpr)
 					if !ok {
-						return true
-					}
-					call, ok := an.Unparen(rs.X).(*ast.CallExpr)
-					if !ok {
-						return true
+						return false
 					}
 					sel, ok := an.Unparen(call.Fun).(*ast.SelectorExpr)
 					if !ok || sel.Sel.Name != "Keys" {
-						return true
+						return false
 					}
 					fld := an.SelectedField(info, sel.X)
 					if fld == nil {
+						return false
+					}
+					return (want != "" && fld.Name() == want) || (want == "" && fld.Name() != "dirtyElems")
+				}
+				g := e.Graph(f)
+				ast.Inspect(f.Body(), func(n ast.Node) bool {
+					st, ok := n.(ast.Stmt)
+					if !ok {
 						return true
 					}
-					want := "dirtyElems"
-					if m == "Close" {
-						want = "" // any non-dirty collection: all realised / configured elements
-					}
-					okField := (want != "" && fld.Name() == want) || (want == "" && fld.Name() != "dirtyElems")
-					if !okField {
+					body, _, ok := perElementLoop(info, st, isKeys)
+					if !ok || body == nil {
 						return true
 					}
-					ast.Inspect(rs.Body, func(k ast.Node) bool {
-						if ce, ok := k.(*ast.CallExpr); ok {
-							if name, _, ok := lifecycleCall(info, ce, iface); ok && name == m {
-								inLoopOverDirty = true
-							}
+					isForward := func(k ast.Node) bool {
+						ce, ok := k.(*ast.CallExpr)
+						if !ok {
+							return false
+						}
+						name, _, ok := lifecycleCall(info, ce, iface)
+						return ok && name == m
+					}
+					has := false
+					ast.Inspect(body, func(k ast.Node) bool {
+						if _, isLit := k.(*ast.FuncLit); isLit {
+							return false
+						}
+						if isForward(k) {
+							has = true
 						}
 						return true
 					})
+					if !has {
+						return true
+					}
+					kind := cfg.KindForBody
+					if _, isRange := st.(*ast.RangeStmt); isRange {
+						kind = cfg.KindRangeBody
+					}
+					if bb := g.BlockOfStmt(st, kind); bb != nil && g.PassesWithin(bb, body.Pos(), body.End(), isForward) {
+						inLoopOverDirty = true
+					}
 					return true
 				})
 				sort.Strings(callees)
@@ -629,58 +657,79 @@ func runResForward(c *core.Ctx) {
 						}
 					}
 				})
-				for _, a := range g.FindAtoms(func(a ast.Node) bool {
+				// every definition of the returned variable that reaches this return is either a successful lookup in the
+				// element map (no path on which the lookup's ok result is not known to be true) or a creation that is stored
+				// into the element map on every path to the return
+				defs := g.FindAtoms(func(a ast.Node) bool {
 					as, ok := a.(*ast.AssignStmt)
 					return ok && len(as.Lhs) >= 1 && an.ObjOf(info, as.Lhs[0]) == v && len(as.Rhs) == 1
-				}) {
-					as := a.(*ast.AssignStmt)
-					call, ok := an.Unparen(as.Rhs[0]).(*ast.CallExpr)
-					if !ok {
+				})
+				isDef := func(x ast.Node) bool {
+					for _, d := range defs {
+						if d == x {
+							return true
+						}
+					}
+					return false
+				}
+				reaching := 0
+				stable = true
+				for _, a := range defs {
+					a := a
+					if !g.Search(an.Query{From: a, Target: func(x ast.Node) bool { return x == r }, Avoid: func(x ast.Node) bool { return x != a && isDef(x) }}).Found {
 						continue
 					}
-					if f := getField(call, "Get"); f != nil && elemMaps[f] && len(as.Lhs) == 2 {
-						okObj := an.ObjOf(info, as.Lhs[1])
-						for _, blk := range g.CFG.Blocks {
-							cd, _ := g.Cond(blk)
-							if cd == nil {
-								continue
-							}
-							ex := ast.Expr(cd)
-							neg := false
-							for {
-								ex = an.Unparen(ex)
-								u, isU := ex.(*ast.UnaryExpr)
-								if !isU || u.Op != token.NOT {
-									break
+					reaching++
+					as := a.(*ast.AssignStmt)
+					call, isCall := an.Unparen(as.Rhs[0]).(*ast.CallExpr)
+					if isCall {
+						if f := getField(call, "Get"); f != nil && elemMaps[f] && len(as.Lhs) == 2 {
+							okObj := an.ObjOf(info, as.Lhs[1])
+							knownTrue := func(from *cfg.Block, i int) bool {
+								cd, _ := g.Cond(from)
+								if cd == nil || okObj == nil || len(from.Succs) != 2 {
+									return true
 								}
-								neg = !neg
-								ex = u.X
+								return !an.Implies(cd, i == 0, func(e ast.Expr, val bool) bool { return val && an.ObjOf(info, e) == okObj })
 							}
-							if an.ObjOf(info, ex) == okObj && okObj != nil && g.GuardedBy(r, cd, !neg) {
-								stable = true
+							reassigned := func(x ast.Node) bool {
+								if x == a {
+									return false
+								}
+								if as2, ok := x.(*ast.AssignStmt); ok {
+									for _, l := range as2.Lhs {
+										if an.ObjOf(info, l) == okObj {
+											return true
+										}
+									}
+								}
+								return false
 							}
+							if okObj == nil || g.Search(an.Query{From: a, Target: func(x ast.Node) bool { return x == r }, Edges: knownTrue, Feasible: true,
+								Avoid: func(x ast.Node) bool { return (x != a && isDef(x)) || reassigned(x) }}).Found {
+								stable = false
+								why = "the child looked up in the element map is returned although the lookup may have failed (not guarded by ok)"
+							}
+							continue
 						}
-						if !stable {
-							why = "the child looked up in the element map is returned although the lookup may have failed (not guarded by ok)"
-						}
-						continue
 					}
 					// created: must be stored into an element map before being returned
-					for _, st := range g.FindAtoms(func(x ast.Node) bool {
+					isStore := func(x ast.Node) bool {
 						c2, ok := x.(*ast.CallExpr)
 						if !ok || len(c2.Args) != 2 || an.ObjOf(info, c2.Args[1]) != v {
 							return false
 						}
 						f := getField(c2, "Set")
 						return f != nil && elemMaps[f]
-					}) {
-						if g.Dominates(a, st) && g.Dominates(st, r) {
-							stable = true
-						}
 					}
-					if !stable {
+					if g.Search(an.Query{From: a, Target: func(x ast.Node) bool { return x == r }, Feasible: true,
+						Avoid: func(x ast.Node) bool { return (x != a && isDef(x)) || isStore(x) }}).Found {
+						stable = false
 						why = "a freshly created child is returned without being stored in the element map: the next access to this index creates another child and the element's committed state is lost"
 					}
+				}
+				if reaching == 0 {
+					stable = false
 				}
 				c.Check(stable, key+"-stable-child", r.Pos(), "the child is the found element, or a created one stored before use", why)
 			}
